@@ -34,12 +34,13 @@ var engines = map[string]engineSpec{
 	"e1":  {Name: "e1", Gen: GenE1, Run: RunE1},
 	"e2":  {Name: "e2", Gen: GenE2, Run: RunE2},
 	"e13": {Name: "e13", Gen: GenE13, Run: RunE13},
+	"e3":  {Name: "e3", Gen: GenE3, Run: RunE3},
 }
 
 // propEngines lists the engines whose runs decide a property, with weights.
 var propEngines = map[string][]string{
 	"C01": {"e1"}, "C02": {"e1", "e2"}, "C03": {"e2"}, "C04": {"e1", "e2"}, "C05": {"e1"}, "C06": {"e1"}, "C07": {"e1"},
-	"C08": {"e1", "e2"}, "C09": {"e1", "e2"}, "C11": {"e1"}, "C12": {"e1"}, "C13": {"e13", "e13", "e2"}, "C14": {"e1"}, "C15": {"e2"}, "C16": {"e2"}, "C17": {"e1"},
+	"C08": {"e1", "e2"}, "C09": {"e1", "e2"}, "C10": {"e3"}, "C11": {"e1"}, "C12": {"e1"}, "C13": {"e13", "e13", "e2"}, "C14": {"e1"}, "C15": {"e2"}, "C16": {"e2"}, "C17": {"e1"},
 	"C18": {"e1", "e2"}, "C19": {"e1"}, "C20": {"e2"},
 }
 
@@ -76,6 +77,7 @@ type WorkerOut struct {
 	ByEngine      map[string]int    `json:"by_engine"`
 	Done          bool              `json:"done"`
 	KnownSeen     map[string]int    `json:"known_seen"`
+	CrashPoints   int               `json:"crash_points"`
 	KnownExamples []ViolationRec    `json:"known_examples"`
 }
 
@@ -176,6 +178,7 @@ func TestWorker(t *testing.T) {
 		for k, v := range res.Stats.Probes {
 			out.Probes[k] += v
 		}
+		out.CrashPoints += res.Stats.CrashPoints
 		out.SimSeconds += res.Stats.SimSeconds
 		out.Ops += res.Stats.Ops
 		if len(out.Samples) < 3 && res.Stats.NonTrivial {
@@ -277,7 +280,27 @@ func minimiseAndRecord(t *testing.T, prop string, eng engineSpec, prog *Program,
 		}
 		return false
 	}
-	if best.Engine == "e2" {
+	if best.Engine == "e3" {
+		// every candidate is a full crash-point enumeration: only try dropping single operations
+		if res0 := eng.Run(t, cloneProgram(best), false); res0.Violation != nil {
+			best.CrashAt, best.Torn = res0.CrashAt, res0.Torn
+		}
+		for oi := 0; oi < len(best.Ops) && execs < 24; oi++ {
+			c := cloneProgram(best)
+			c.CrashAt, c.Torn = -1, false
+			c.Ops = append(append([]Op(nil), c.Ops[:oi]...), c.Ops[oi+1:]...)
+			if len(c.Ops) == 0 {
+				continue
+			}
+			execs++
+			r := eng.Run(t, cloneProgram(c), false)
+			if r.Trouble == "" && sameClass(v, r.Violation, prop) {
+				c.CrashAt, c.Torn = r.CrashAt, r.Torn // pin the crash point for the replay
+				best, bestV = c, r.Violation
+				oi--
+			}
+		}
+	} else if best.Engine == "e2" {
 		// concurrent programs: drop tasks, operations, setup steps, feeds, handles; the schedule is
 		// re-derived from the same schedule seed, and a candidate is kept only if the same oracle fires
 		progress := true
